@@ -40,6 +40,73 @@ def flavour_batch():
     return b
 
 
+def uleb_padded(n, length):
+    """n as unsigned LEB128 of exactly `length` bytes (non-minimal encodings are valid)"""
+    out = bytearray()
+    for k in range(length):
+        b = n & 0x7f
+        n >>= 7
+        out.append(b | (0x80 if k < length - 1 else 0))
+    assert n == 0
+    return bytes(out)
+
+
+def padded_memarg_batch():
+    """every load/store flavour with a non-minimal (padded) LEB128 encoding of the alignment and of the offset field: the same
+    access as with the canonical encoding"""
+    m = Module()
+    m.mems.append((1, 1))
+    m.datas.append(('active', 0, i32_const(0), bytes((i * 13 + 5) & 0xff for i in range(200))))
+    cases = []
+    inputsets = [('explicit', [(b,) for b in (0, 3, 40)]), ('explicit', [(b, v) for b in (0, 3, 40) for v in (0x11223344, 0xffffffff)]),
+                 ('explicit', [(b, v) for b in (0, 3, 40) for v in (0x1122334455667788, 0xffffffffffffffff)])]
+    k = 0
+    for code, (nm, t, w) in sorted(list(LOADS.items()) + list(STORES.items())):
+        al = {1: 0, 2: 1, 4: 2, 8: 3}[w]
+        for alen, olen, off in ((2, 1, 17), (5, 1, 17), (1, 5, 17), (3, 3, 17), (5, 5, 0), (2, 2, 1)):
+            body = local_get(0) + (local_get(1) if code in STORES else b'') + bytes([code]) + uleb_padded(al, alen) + uleb_padded(off, max(olen, len(uleb(off))))
+            if code in LOADS:
+                m.add_func('i', t, (), body, export='f%d' % k)
+                cases.append(Case('f%d' % k, 'i', t, 0, -1, '%s offset=%d, alignment field in %d bytes, offset field in %d bytes' % (nm, off, alen, olen)))
+            else:
+                m.add_func('i' + t, '', (), body, export='f%d' % k)
+                cases.append(Case('f%d' % k, 'i' + t, 'v', 1 if t in 'if' else 2, -1, '%s offset=%d, alignment field in %d bytes, offset field in %d bytes' % (nm, off, alen, olen)))
+            k += 1
+    b = Batch(m.encode(), cases, inputsets)
+    b.impl_mem = 'ls_cur_inst->m0'
+    b.compare_mem = True
+    return b
+
+
+def sequence_batch(pairs):
+    """store; store; load inside ONE function through two address operands that may or may not overlap at run time: the
+    compiler sees all three accesses together (type-based alias analysis, store forwarding at -O2/-O3)"""
+    m = Module()
+    m.mems.append((1, 1))
+    m.datas.append(('active', 0, i32_const(0), bytes((i * 29 + 7) & 0xff for i in range(128))))
+    V = {'i': (0x11223344, 0xffffff80), 'I': (0x1122334455667788, 0xffffffffffff8000), 'f': (0x3fc00000, 0xff800001), 'F': (0x3ff8000000000000, 0xfff0000000000001)}
+    addr = [(8, 8), (8, 9), (8, 10), (8, 12), (9, 8), (10, 8), (12, 8), (8, 16), (16, 8), (15, 8)]
+    isets, iidx, cases = [], {}, []
+    k = 0
+    for s1, s2 in pairs:
+        n1, t1, w1 = STORES[s1]; n2, t2, w2 = STORES[s2]
+        if (t1, t2) not in iidx:
+            iidx[(t1, t2)] = len(isets)
+            isets.append(('explicit', [(p, q, a, b) for p, q in addr for a, b in zip(V[t1], reversed(V[t2]))]))
+        for lc, (ln, lt, lw) in sorted(LOADS.items()):
+            body = local_get(0) + local_get(2) + memop(s1) + local_get(1) + local_get(3) + memop(s2) + local_get(0) + memop(lc)
+            m.add_func('ii' + t1 + t2, lt, (), body, export='f%d' % k)
+            cases.append(Case('f%d' % k, 'ii' + t1 + t2, lt, iidx[(t1, t2)], -1, '%s p v1; %s q v2; %s p' % (n1, n2, ln))); k += 1
+            # and the load through the second address after storing through the first
+            body = local_get(1) + local_get(3) + memop(s2) + local_get(0) + local_get(2) + memop(s1) + local_get(1) + memop(lc)
+            m.add_func('ii' + t1 + t2, lt, (), body, export='f%d' % k)
+            cases.append(Case('f%d' % k, 'ii' + t1 + t2, lt, iidx[(t1, t2)], -1, '%s q v2; %s p v1; %s q' % (n2, n1, ln))); k += 1
+    b = Batch(m.encode(), cases, isets)
+    b.impl_mem = 'ls_cur_inst->m0'
+    b.compare_mem = True
+    return b
+
+
 def history_batch(mem, depth, budget):
     """mem = (min, max|None).  Operation alphabet over one instance."""
     m = Module()
@@ -106,6 +173,13 @@ def main(tier):
         jobs.append(('history-asan mem=%s' % (mem,), history_batch(mem, 2, budget), {'cflags': ('-O1', '-fsanitize=address', '-fno-omit-frame-pointer'), 'drv_args': (2, secs), 'timeout': secs + 60}))
     if tier == 'thorough':
         jobs.append(('flavours-gccO2', flavour_batch(), {'cc': 'gcc', 'cflags': ('-O2',), 'timeout': 900}))
+    jobs.append(('padded-memarg', padded_memarg_batch(), {'cc': 'gcc', 'cflags': ('-O1',), 'timeout': 900}))
+    # (c) store/store/load sequences inside one function, optimising compilers
+    allpairs = [(a, b) for a in sorted(STORES) for b in sorted(STORES)]
+    third = (len(allpairs) + 2) // 3
+    for cc, fl in (('gcc', '-O2'), ('clang', '-O2')) + ((('gcc', '-O3'), ('clang', '-O0')) if tier == 'thorough' else ()):
+        for part in range(3):
+            jobs.append(('sequences %s %s part %d' % (cc, fl, part), sequence_batch(allpairs[part * third:(part + 1) * third]), {'cc': cc, 'cflags': (fl,), 'timeout': 1800}))
 
     def work(job):
         label, b, kw = job
@@ -147,7 +221,9 @@ def main(tier):
                        'compared after every store; (b) BFS over histories of a 50-operation alphabet (stores, grow by 0/1/2/3/65535/65536/2^32-1, size, '
                        'fill, copy with overlap in both directions, init from a passive segment, data.drop, loads) for 5 memory declarations; a state is '
                        'the history reaching it, deduplicated by (pages, all bytes, dropped flag) of the reference; every transition executes the real '
-                       'translated code on a fresh instance and compares result, trap, pages and every byte; ASan build. distinct_nontrivial = distinct states')
+                       'translated code on a fresh instance and compares result, trap, pages and every byte; ASan build; (c) every (store flavour, store flavour, load flavour) triple as ONE function '
+                       'store p; store q; load p (and the mirrored order) over overlapping / disjoint address pairs, compiled by gcc and clang at -O2 (thorough: + -O3, -O0): all accesses visible to '
+                       'the optimiser together; every flavour also with padded LEB128 alignment/offset fields. distinct_nontrivial = distinct states')
     chk.cov['distinct_nontrivial'] = max(chk.cov['distinct_nontrivial'], states)
     chk.sample({'history': ['memory.grow(1)', 'i64.store(0xfffc,0x8877665544332211)', 'memory.copy(0,0xfffa,12)'], 'compared': 'result, trap, pages, all bytes'})
     chk.assumptions += ['effective addresses >= 2^32 cannot be in bounds (memories are < 4 GiB), so address wrap-around is unobservable under the in-bounds precondition']
